@@ -14,6 +14,8 @@ import Driver.SM2Model
 import Driver.X509Sign
 import Driver.BER
 import Driver.Resume
+import Driver.ResumeAuth
+import Driver.ClientResume
 import Driver.Negotiate
 import Driver.GMDecode
 import Driver.Intrinsic
@@ -28,6 +30,7 @@ import Driver.P256Limbs
 import Driver.TLSMessages
 import Driver.HMACModel
 import Driver.PKCS12
+import Driver.P12MacLen
 import Driver.ConnRead
 import Driver.X509Names
 import Driver.KeyType
@@ -35,6 +38,7 @@ import Driver.TemplateReuse
 import Driver.CRLIssuer
 import Driver.PubHex
 import Driver.KexGlue
+import Driver.ResumeGraft
 open Gmsm
 
 def dispatch (toks : List String) : String :=
@@ -51,6 +55,9 @@ def dispatch (toks : List String) : String :=
     | some r => r
     | none =>
     match Driver.resumeDispatch toks with
+    | some r => r
+    | none =>
+    match Driver.cliresumeDispatch toks with
     | some r => r
     | none =>
     match Driver.negotiateDispatch toks with
@@ -95,6 +102,9 @@ def dispatch (toks : List String) : String :=
     match Driver.pkcs12Dispatch toks with
     | some r => r
     | none =>
+    match Driver.p12MacLenDispatch toks with
+    | some r => r
+    | none =>
     match Driver.connReadDispatch toks with
     | some r => r
     | none =>
@@ -114,6 +124,12 @@ def dispatch (toks : List String) : String :=
     | some r => r
     | none =>
     match Driver.kexGlueDispatch toks with
+    | some r => r
+    | none =>
+    match Driver.resumeGraftDispatch toks with
+    | some r => r
+    | none =>
+    match Driver.resumeAuthDispatch toks with
     | some r => r
     | none =>
     match toks with
